@@ -24,3 +24,7 @@ func simBeforeRecv(vm *VM, ch reflect.Value)                   {}
 func simBeforeSend(vm *VM, ch reflect.Value)                   {}
 func simBeforeSelect(vm *VM, cases []reflect.SelectCase)       {}
 func simAfterChanOp(vm *VM, cases []reflect.SelectCase, i int) {}
+
+func simGoNative(vm *VM, f reflect.Value, args []reflect.Value, variadic bool) bool {
+	return false
+}
